@@ -32,6 +32,14 @@ MC_ScriptMsgs ==
 \* script requests: AXFR, IXFR from a client behind (2 < 3) and from a current one (3)
 MC_ScriptReqs == {Rq("tcp", "AXFR", "none", 0), Rq("tcp", "IXFR", "older", 2), Rq("tcp", "IXFR", "same", 3)}
 MC_OnePolicy == {"all"}
+MC_NoFlaws == {}
+\* the as-is configurations (each is expected to violate X02_ClientVerdict)
+MC_AnySoaCloses == {"anySoaCloses"}
+MC_PlainEndIsSilent == {"plainEndIsSilent"}
+MC_RcodeIgnored == {"rcodeIgnored"}
+MC_NonSoaStartEnds == {"nonSoaStartEnds"}
+MC_SingleMessage == {"singleMessage"}
+MC_AxfrOnly == {Rq("tcp", "AXFR", "none", 0)}
 MC_OneCap == {5}
 
 \* a bigger alphabet for the thorough tier: a third serial and a second record
